@@ -1,0 +1,274 @@
+//go:build verif
+
+package blockchain
+
+// Add-only wrappers for the out-of-tree verification harness (/verif, family `blocksync`, property C01
+// "a node that catches up by block sync only ever adopts blocks that correct validators committed" and the
+// block-sync part of C18).  Nothing here is compiled without the build tag `verif`; nothing changes the
+// behaviour of an existing function.  The processor (pcState), the scheduler and the event types of this
+// package are unexported: the wrappers construct them exactly as newReactor does, forward events to the real
+// handle functions and expose read-only projections of their state.
+
+import (
+	"sync/atomic"
+	"time"
+
+	"github.com/kardiachain/go-kardia/configs"
+	"github.com/kardiachain/go-kardia/kai/state/cstate"
+	"github.com/kardiachain/go-kardia/lib/common"
+	"github.com/kardiachain/go-kardia/lib/p2p"
+	"github.com/kardiachain/go-kardia/types"
+)
+
+// VerifBlockStore / VerifBlockApplier name the two unexported dependency interfaces of the processor context.
+type VerifBlockStore = blockStore
+type VerifBlockApplier = blockApplier
+
+// ---------------------------------------------------------------------------------------------- processor
+
+// VerifProcessor is the real pcState over a real pContext.
+type VerifProcessor struct {
+	st  *pcState
+	ctx *pContext
+}
+
+// NewVerifProcessor builds the processor as newReactor does: newPcState(newProcessorContext(store, applier, state)).
+func NewVerifProcessor(store VerifBlockStore, applier VerifBlockApplier, state cstate.LatestBlockState) *VerifProcessor {
+	ctx := newProcessorContext(store, applier, state)
+	return &VerifProcessor{st: newPcState(ctx), ctx: ctx}
+}
+
+// Handle is pcState.handle.
+func (p *VerifProcessor) Handle(ev Event) (Event, error) { return p.st.handle(ev) }
+
+func (p *VerifProcessor) Height() uint64                 { return p.st.height() }
+func (p *VerifProcessor) Draining() bool                 { return p.st.draining }
+func (p *VerifProcessor) BlocksSynced() int              { return p.st.blocksSynced }
+func (p *VerifProcessor) State() cstate.LatestBlockState { return p.ctx.kaiState() }
+
+// VerifQueueItem is the projection of one queue entry.
+type VerifQueueItem struct {
+	Hash  common.Hash
+	Block *types.Block
+	Peer  p2p.ID
+}
+
+// Queue returns a copy of the processor's block queue.
+func (p *VerifProcessor) Queue() map[uint64]VerifQueueItem {
+	out := make(map[uint64]VerifQueueItem, len(p.st.queue))
+	for h, it := range p.st.queue {
+		out[h] = VerifQueueItem{Hash: it.block.Hash(), Block: it.block, Peer: it.peerID}
+	}
+	return out
+}
+
+// ---------------------------------------------------------------------------------------------- events
+
+func VerifScBlockReceived(peer p2p.ID, b *types.Block) Event {
+	return scBlockReceived{peerID: peer, block: b}
+}
+func VerifScPeerError(peer p2p.ID) Event                 { return scPeerError{peerID: peer} }
+func VerifScFinished() Event                             { return scFinishedEv{reason: "verif"} }
+func VerifRProcessBlock() Event                          { return rProcessBlock{} }
+func VerifBcResetState(st cstate.LatestBlockState) Event { return bcResetState{state: st} }
+
+func VerifBcStatusResponse(peer p2p.ID, base, height uint64, t time.Time) Event {
+	return bcStatusResponse{peerID: peer, base: base, height: height, time: t}
+}
+func VerifBcBlockResponse(peer p2p.ID, b *types.Block, size uint64, t time.Time) Event {
+	return bcBlockResponse{peerID: peer, block: b, size: size, time: t}
+}
+func VerifBcNoBlockResponse(peer p2p.ID, height uint64, t time.Time) Event {
+	return bcNoBlockResponse{peerID: peer, height: height, time: t}
+}
+func VerifBcAddNewPeer(peer p2p.ID) Event  { return bcAddNewPeer{peerID: peer} }
+func VerifBcRemovePeer(peer p2p.ID) Event  { return bcRemovePeer{peerID: peer, reason: "verif"} }
+func VerifRTrySchedule(t time.Time) Event  { return rTrySchedule{time: t} }
+func VerifRTryPrunePeer(t time.Time) Event { return rTryPrunePeer{time: t} }
+func VerifPcBlockProcessed(h uint64, peer p2p.ID) Event {
+	return pcBlockProcessed{height: h, peerID: peer}
+}
+
+// VerifBSEventInfo describes an event of this package (input or output of a handle function).
+type VerifBSEventInfo struct {
+	Kind   string // Go type name without package: "noOpEvent", "pcBlockProcessed", "scBlockRequest", ...
+	Height uint64
+	Peer   p2p.ID
+	Peer2  p2p.ID
+	Peers  []p2p.ID
+	Synced int
+	Base   uint64
+	Block  *types.Block
+	State  *cstate.LatestBlockState
+	Reason string
+}
+
+// VerifBSDescribe classifies an event.
+func VerifBSDescribe(ev Event) VerifBSEventInfo {
+	switch e := ev.(type) {
+	case nil:
+		return VerifBSEventInfo{Kind: "nil"}
+	case noOpEvent:
+		return VerifBSEventInfo{Kind: "noOpEvent"}
+	case pcBlockVerificationFailure:
+		return VerifBSEventInfo{Kind: "pcBlockVerificationFailure", Height: e.height, Peer: e.firstPeerID, Peer2: e.secondPeerID}
+	case pcBlockProcessed:
+		return VerifBSEventInfo{Kind: "pcBlockProcessed", Height: e.height, Peer: e.peerID}
+	case pcFinished:
+		st := e.kaiState
+		return VerifBSEventInfo{Kind: "pcFinished", Synced: e.blocksSynced, Height: e.kaiState.LastBlockHeight, State: &st}
+	case scFinishedEv:
+		return VerifBSEventInfo{Kind: "scFinishedEv", Reason: e.reason}
+	case scBlockRequest:
+		return VerifBSEventInfo{Kind: "scBlockRequest", Height: e.height, Peer: e.peerID}
+	case scBlockReceived:
+		info := VerifBSEventInfo{Kind: "scBlockReceived", Peer: e.peerID, Block: e.block}
+		if e.block != nil {
+			info.Height = e.block.Height()
+		}
+		return info
+	case scPeerError:
+		info := VerifBSEventInfo{Kind: "scPeerError", Peer: e.peerID}
+		if e.reason != nil {
+			info.Reason = e.reason.Error()
+		}
+		return info
+	case scPeersPruned:
+		return VerifBSEventInfo{Kind: "scPeersPruned", Peers: append([]p2p.ID(nil), e.peers...)}
+	case scSchedulerFail:
+		info := VerifBSEventInfo{Kind: "scSchedulerFail"}
+		if e.reason != nil {
+			info.Reason = e.reason.Error()
+		}
+		return info
+	case bcStatusResponse:
+		return VerifBSEventInfo{Kind: "bcStatusResponse", Peer: e.peerID, Base: e.base, Height: e.height}
+	case bcBlockResponse:
+		info := VerifBSEventInfo{Kind: "bcBlockResponse", Peer: e.peerID, Block: e.block}
+		if e.block != nil {
+			info.Height = e.block.Height()
+		}
+		return info
+	case bcNoBlockResponse:
+		return VerifBSEventInfo{Kind: "bcNoBlockResponse", Peer: e.peerID, Height: e.height}
+	case bcAddNewPeer:
+		return VerifBSEventInfo{Kind: "bcAddNewPeer", Peer: e.peerID}
+	case bcRemovePeer:
+		return VerifBSEventInfo{Kind: "bcRemovePeer", Peer: e.peerID}
+	case bcResetState:
+		st := e.state
+		return VerifBSEventInfo{Kind: "bcResetState", Height: e.state.LastBlockHeight, State: &st}
+	case rTrySchedule:
+		return VerifBSEventInfo{Kind: "rTrySchedule"}
+	case rTryPrunePeer:
+		return VerifBSEventInfo{Kind: "rTryPrunePeer"}
+	case rProcessBlock:
+		return VerifBSEventInfo{Kind: "rProcessBlock"}
+	}
+	return VerifBSEventInfo{Kind: "unknown"}
+}
+
+// ---------------------------------------------------------------------------------------------- scheduler
+
+// VerifScheduler is the real v2 scheduler.
+type VerifScheduler struct{ sc *scheduler }
+
+// NewVerifScheduler builds the scheduler as newReactor does for a node whose state is `state`.
+func NewVerifScheduler(state cstate.LatestBlockState, start time.Time, cfg *configs.FastSyncConfig) *VerifScheduler {
+	initHeight := state.LastBlockHeight + 1
+	if initHeight == 1 {
+		initHeight = state.InitialHeight
+	}
+	return &VerifScheduler{sc: newScheduler(initHeight, start, cfg)}
+}
+
+// Handle is scheduler.handle.
+func (s *VerifScheduler) Handle(ev Event) (Event, error) { return s.sc.handle(ev) }
+
+// VerifSchedPeer / VerifSchedState: read-only projection of the scheduler.
+type VerifSchedPeer struct {
+	State  string // "New" | "Ready" | "Removed"
+	Base   uint64
+	Height uint64
+}
+type VerifSchedState struct {
+	InitHeight uint64
+	Height     uint64
+	Peers      map[p2p.ID]VerifSchedPeer
+	Blocks     map[uint64]string // "New" | "Pending" | "Received" (entries of blockStates)
+	Pending    map[uint64]p2p.ID
+	Received   map[uint64]p2p.ID
+}
+
+func (s *VerifScheduler) Snapshot() VerifSchedState {
+	out := VerifSchedState{InitHeight: s.sc.initHeight, Height: s.sc.height, Peers: map[p2p.ID]VerifSchedPeer{},
+		Blocks: map[uint64]string{}, Pending: map[uint64]p2p.ID{}, Received: map[uint64]p2p.ID{}}
+	for id, p := range s.sc.peers {
+		out.Peers[id] = VerifSchedPeer{State: peerState(p.state).String(), Base: p.base, Height: p.height}
+	}
+	for h, st := range s.sc.blockStates {
+		out.Blocks[h] = st.String()
+	}
+	for h, p := range s.sc.pendingBlocks {
+		out.Pending[h] = p
+	}
+	for h, p := range s.sc.receivedBlocks {
+		out.Received[h] = p
+	}
+	return out
+}
+
+// Warp lets d of time pass for the scheduler without sleeping: every instant the scheduler has stored
+// (peer.lastTouched, pendingTime, lastAdvance) is moved back by d, which is indistinguishable, for the
+// scheduler's comparisons against time.Now()/event times, from the clock having advanced by d.
+func (s *VerifScheduler) Warp(d time.Duration) {
+	s.sc.lastAdvance = s.sc.lastAdvance.Add(-d)
+	for _, p := range s.sc.peers {
+		if !p.lastTouched.IsZero() {
+			p.lastTouched = p.lastTouched.Add(-d)
+		}
+	}
+	for h, t := range s.sc.pendingTime {
+		s.sc.pendingTime[h] = t.Add(-d)
+	}
+}
+
+// ---------------------------------------------------------------------------------------------- routine
+
+// VerifRoutine is a real Routine (newRoutine: the priority queue with the package's event priorities) that is
+// stepped by the caller instead of by its own goroutine: Step performs exactly one iteration of the loop of
+// Routine.start (take the next event in queue order, run the handle function), without the history and without
+// the output channel.
+type VerifRoutine struct{ rt *Routine }
+
+func NewVerifRoutine(name string, handle func(Event) (Event, error)) *VerifRoutine {
+	rt := newRoutine(name, handle, chBufferSize)
+	atomic.StoreUint32(rt.running, 1) // what start() does first; send() refuses events otherwise
+	return &VerifRoutine{rt: rt}
+}
+
+// Send is Routine.send.
+func (r *VerifRoutine) Send(ev Event) bool { return r.rt.send(ev) }
+
+// Stop is Routine.stop (reactor.demux stops the scheduler routine after scFinishedEv): the queue is disposed,
+// later Sends are refused and Step finds nothing.
+func (r *VerifRoutine) Stop() { r.rt.stop() }
+
+// Len is the number of queued events.
+func (r *VerifRoutine) Len() int { return r.rt.queue.Len() }
+
+// Next takes the next event in queue order (what `rt.queue.Get(1)` returns in Routine.start); ok=false if the
+// queue is empty or disposed.
+func (r *VerifRoutine) Next() (ev Event, ok bool) {
+	if r.rt.queue.Len() == 0 {
+		return nil, false
+	}
+	events, err := r.rt.queue.Get(1)
+	if err != nil || len(events) == 0 {
+		return nil, false
+	}
+	return events[0].(Event), true
+}
+
+// Handle runs the routine's handle function on ev (the second half of one iteration of Routine.start).
+func (r *VerifRoutine) Handle(ev Event) (Event, error) { return r.rt.handle(ev) }
